@@ -217,7 +217,7 @@ class Runtime:
         return self.cur
 
     def cap_for(self, what):
-        return self.caps.get(what, {'deque': 3, 'queue': 4, 'pool_jobs': 4, 'pool_workers': 2}[what])
+        return self.caps.get(what, {'deque': 3, 'queue': 4, 'pool_jobs': 4, 'pool_workers': 2, 'mp_pipe': 1}.get(what))
 
     def on_thread_start(self, th):
         if self.explorer is not None:
@@ -417,6 +417,67 @@ def _abs(o, seen, depth):
     return _uniq(t.__name__)
 
 
+# ---- the value stack of suspended frames (CPython 3.12 layout) ---------------------------------
+# What a frame keeps on its evaluation stack while it waits for a call to return — the iterator of a
+# `for` loop, a return value held while `finally` runs, operands of a half-evaluated expression — is part
+# of the thread's local state but is not in f_locals.  CPython saves the stack pointer of a frame whenever
+# it makes an (inlined) Python-to-Python call and resets it to -1 while the frame executes or sits in a C
+# call, so a saved pointer always delimits live references.  Layout: PyFrameObject.f_frame at +24;
+# _PyInterpreterFrame.stacktop (int) at +64, localsplus[] at +72.  Self-tested at import; when the test
+# fails the stack is reported as unknown (the fingerprints then fall back on differential validation).
+import ctypes as _ct
+
+
+def _frame_stack_raw(f):
+    iframe = _ct.c_void_p.from_address(id(f) + 24).value
+    if not iframe:
+        return None
+    stacktop = _ct.c_int.from_address(iframe + 64).value
+    co = f.f_code
+    nlp = len(co.co_varnames) + len([c for c in co.co_cellvars if c not in co.co_varnames]) + len(co.co_freevars)
+    if stacktop < nlp or stacktop > nlp + co.co_stacksize:
+        return None
+    out = []
+    for k in range(nlp, stacktop):
+        p = _ct.c_void_p.from_address(iframe + 72 + 8 * k).value
+        out.append(_ct.cast(p, _ct.py_object).value if p else None)
+    return out
+
+
+def _stack_selftest():
+    if sys.version_info[:2] != (3, 12) or sys.implementation.name != 'cpython':
+        return False
+    seen = []
+
+    def probe():
+        st = _frame_stack_raw(sys._getframe(1))
+        seen.append(None if st is None else [(type(o).__name__, o.__reduce__()[2]) if type(o).__name__ == 'list_iterator'
+                                             else o for o in st])
+
+    def loop(xs, cell=[0]):
+        for x in xs:
+            probe()
+        try:
+            return 41 + cell[0]
+        finally:
+            probe()
+
+    try:
+        for _ in range(3):
+            del seen[:]
+            loop([7, 8])
+        return seen == [[('list_iterator', 1)], [('list_iterator', 2)], [41]]
+    except Exception:
+        return False
+
+
+STACK_OK = _stack_selftest() and not os.environ.get('VERIF_NO_FRAME_STACK')
+
+
+def frame_stack(f):
+    return _frame_stack_raw(f) if STACK_OK else None
+
+
 def fingerprint(ctx, skip=2):
     """Hashable abstraction of the calling thread's local state (all python frames between the
     primitive and the thread's entry point, plus allocation counters and held locks)."""
@@ -433,7 +494,9 @@ def fingerprint(ctx, skip=2):
             continue
         try:
             loc = f.f_locals
-            parts.append((co.co_qualname, f.f_lasti, tuple((k, _abs(v, seen, 0)) for k, v in loc.items())))
+            stk = frame_stack(f)
+            parts.append((co.co_qualname, f.f_lasti, tuple((k, _abs(v, seen, 0)) for k, v in loc.items()),
+                          None if stk is None else tuple(_abs(v, seen, 0) for v in stk)))
         except Exception:
             parts.append(_uniq('frame'))
         f = f.f_back
